@@ -9,7 +9,7 @@ DAY = 24 * HOUR
 
 
 def rand_tid(rng):
-    n = rng.choice([0, 1, 2, 2, 4, 8, 8, 16, 31, 32, rng.range(0, 32)])
+    n = rng.choice([0, 1, 2, 2, 4, 8, 8, 16, 31, 32, rng.range(0, 32), rng.range(0, 32), rng.choice([33, 100, 799, 800, 801, 1200])])
     return rng.bytes(n).hex()
 
 
@@ -26,11 +26,11 @@ def addr_in_family(rng, v6, base, special=False):
     return comp.Addr(False, (10 << 24) | base, rng.range(1024, 65000))
 
 
-def gen_server(rng, consts, many_peers=False, long_times=False):
+def gen_server(rng, consts, many_peers=False, long_times=False, mapped_sources=False):
     """Family A: a (mostly serving) node receiving every kind of query and non-query traffic."""
     sc = simlib.Scenario()
-    v6 = rng.chance(1, 4)
-    ro = rng.chance(1, 5)
+    v6 = rng.chance(1, 4) or mapped_sources
+    ro = rng.chance(1, 5) and not mapped_sources
     own = comp.rand_id(rng)
     naddr = addr_in_family(rng, v6, 1)
     sc.add("seed %d" % rng.below(1 << 30))
@@ -56,7 +56,9 @@ def gen_server(rng, consts, many_peers=False, long_times=False):
     ro_default = ro and rng.chance(1, 2)       # read-only by NOT configuring it: the builder's documented default
     sc.add_node("n", naddr, own, ro=ro, aport=None, nodes=[a for a, _ in resps[:3]], ro_default=ro_default)
     meta = {"v6": v6, "ro": ro, "own": own, "naddr": naddr}
-    srcs = [addr_in_family(rng, v6, 1000 + i) for i in range(rng.range(2, 6))]
+    # (mapped_sources: a dual-stack node sees its IPv4 clients as ::ffff:a.b.c.d)
+    srcs = [addr_in_family(rng, v6, 1000 + i, special=(rng.chance(2, 3) if mapped_sources else rng.chance(1, 3)))
+            for i in range(rng.range(2, 6))]
     src_ids = [comp.rand_id(rng) for _ in srcs]
     hashes = [comp.rand_id(rng) for _ in range(rng.range(1, 3))]
     t = 2 * S
@@ -223,9 +225,20 @@ def gen_lookup(rng, consts, hostile=False, faults=False, early=False, sizes=None
     if hostile:
         other = addr_in_family(rng, v6, 9000)
         base = searches[0]["t"]
-        for _ in range(rng.range(3, 12)):
-            kind = rng.choice(["dup", "old", "othersrc", "wrongmid", "wrongaid", "shorttid", "longtid"])
+        # every kind of forgery at least once while the first search is live (its rounds run for about 3 s), then some more
+        kinds = ["dup", "old", "othersrc", "wrongmid", "wrongaid", "shorttid", "longtid"]
+        rng.shuffle(kinds)
+        for kind in kinds:
+            sc.add("at %d forge %s %s %s" % (base + 100 * MS + rng.below(2500 * MS), kind, naddr.script(), other.script()))
+        for _ in range(rng.range(0, 6)):
+            kind = rng.choice(kinds)
             sc.add("at %d forge %s %s %s" % (base + rng.below(6 * S), kind, naddr.script(), other.script()))
+        # forgeries derived from the most recent answer: repeated at several instants of the first rounds, so that some are
+        # derived from an answer to the search itself (and not to a bootstrap / refresh query)
+        for s_ in searches[:2]:
+            for off in (60 * MS, 150 * MS, 400 * MS, 900 * MS, 1300 * MS):
+                for kind in ("longtid", "dup", "wrongmid"):
+                    sc.add("at %d forge %s %s %s" % (s_["t"] + off + rng.below(40 * MS), kind, naddr.script(), other.script()))
         for _ in range(rng.range(0, 4)):
             # a fabricated response carrying peers and a token, with a random transaction id
             sc.add("at %d injectmsg %s %s t=%s r id=%040x values=%s nodes= nodes6= token=%s" % (
@@ -263,6 +276,14 @@ def gen_early(rng, consts):
     sc.add("at %d search n %040x 0 late" % (30 * S, ih))
     sc.add("end %d" % (70 * S))
     meta["early_tags"] = tags
+    meta["first_attempt_fails"] = False
+    if rng.chance(1, 4):
+        # nobody answers during the first seconds: the first bootstrap attempt concludes as failed (IdleBeforeRebootstrap), a
+        # later one succeeds; the early searches are released at that first conclusion (and may then find nothing) -- they must
+        # still END
+        for _, a in meta["world"]:
+            sc.lines.insert(3, "outage %s %d %d" % (a.script(), 0, 3500 * MS))
+        meta["first_attempt_fails"] = True
     return sc, meta
 
 
@@ -297,6 +318,20 @@ def gen_refresh_longrun(rng, consts, minutes):
         sc.add("at %d state n" % (end * k // 6))
     if rng.chance(1, 2) and world:
         sc.add("at %d search n %040x 1 s0" % (end // 2, comp.rand_id(rng)))
+    if rng.chance(1, 2) and world:
+        # searches in flight while the node keeps re-bootstrapping (their timeouts interleave with bootstrap completions)
+        t = rng.range(20, 60) * S
+        k = 1
+        while t < min(end, 5 * MIN) and k < 40:
+            sc.add("at %d search n %040x %d s%d" % (t, comp.rand_id(rng), rng.below(2), k))
+            t += rng.choice([700 * MS, 2 * S, 3100 * MS, 5 * S])
+            k += 1
+    if rng.chance(1, 2):
+        # API callers polling bootstrapped() on a node that is (mostly) bootstrapped already
+        t = rng.range(30, 90) * S
+        for k in range(rng.range(5, 40)):
+            sc.add("at %d boot n p%d" % (t, k))
+            t += rng.choice([300 * MS, 1 * S, 2500 * MS])
     sc.add("end %d" % end)
     return sc, {"own": own, "world": world, "naddr": naddr, "minutes": minutes}
 
